@@ -894,7 +894,20 @@ def _to_c_expr(
                     _infer_arg_type(n)
                 except ValueError:
                     pass
-            args_rendered = ", ".join(emit(arg) for arg in n.args)
+            rendered_args: List[str] = []
+            for arg in n.args:
+                arg_expr = emit(arg)
+                if (
+                    ctx is not None
+                    and fname in ctx.get("functions", {})
+                    and not isinstance(arg, ast.Name)
+                    and _infer_arg_type(arg) == "float"
+                ):
+                    # 1.5 or (h * 2.0) is a double in C++: with int and float variants
+                    # of the helper the call would be ambiguous
+                    arg_expr = f"static_cast<float>({arg_expr})"
+                rendered_args.append(arg_expr)
+            args_rendered = ", ".join(rendered_args)
             return f"{fname}({args_rendered})"
 
         raise ValueError("unsupported")
